@@ -12,6 +12,9 @@ pub uninterp spec fn cow_cell<T>(x: T) -> VCell;
 pub proof fn axiom_cow_cell_ref(c: &VCell) ensures cow_cell::<&VCell>(c) == *c {}
 pub assume_specification<'a, T: Into<std::borrow::Cow<'a, VCell>>> [Heap::get] (h: &Heap, v: T) -> (r: VCell) ensures r == heap_deref(*h, cow_cell(v));
 pub assume_specification [Heap::get_as_cell] (h: &Heap, v: &VCell) -> (r: Cell);
+/// allocation through the (here opaque) heap: nothing is known about the result
+pub assume_specification<T: Into<VCell> + Clone> [Heap::put] (h: &mut Heap, v: T) -> (r: VCell);
+pub assume_specification<T: Into<VCell> + Clone> [Heap::maybe_put] (h: &mut Heap, v: T) -> (r: VCell);
 /// rendering a datum / a number for an error message cannot fail
 impl vstd::std_specs::fmt::DisplaySpecImpl for Cell { open spec fn fmt_req(&self, f: &core::fmt::Formatter<'_>) -> bool { true } }
 impl vstd::std_specs::fmt::DisplaySpecImpl for Number { open spec fn fmt_req(&self, f: &core::fmt::Formatter<'_>) -> bool { true } }
@@ -50,6 +53,10 @@ pub open spec fn vc_end(vm: Vm, n: int, from: Rc<Vector>) -> Option<usize> { if 
 pub open spec fn vector_copied(to: Rc<Vector>, at: int, from: Rc<Vector>, start: int, end: int) -> bool {
     &&& 0 <= start <= end <= vlen(from) && 0 <= at && at + (end - start) <= vlen(to)
     &&& forall|i: int| start <= i < end ==> #[trigger] vector_written(*to, at + (i - start), vector_view(*from)[i])
+}
+/// j-th cell of the list that starts at (dereferenced) cell `start`, following cdr pointers through heap h
+pub open spec fn list_cell(h: crate::vm::heap::Heap, start: VCell, j: nat) -> VCell decreases j {
+    if j == 0 { start } else { match list_cell(h, start, (j - 1) as nat) { VCell::Pair(a, d) => heap_deref(h, VCell::Ptr(d)), _ => VCell::Undefined } }
 }
 pub uninterp spec fn into_vec<T>(x: T) -> Seq<VCell>;
 #[verifier::external_body]
@@ -149,6 +156,23 @@ UNITS = [
                         start <= end <= vector_view(*from_vector).len(), at + (end - start) <= vector_view(*to_vector).len(), vector_view(*to_vector).len() <= usize::MAX,
                         forall|j: int| start <= j < i ==> #[trigger] vector_written(*to_vector, at + (j - start), vector_view(*from_vector)[j]),'''},
                 'loop_count': 1,
+            },
+            '::list_to_vector': {
+                'props': T, 'requires': POP_REQ,
+                # a circular list makes this loop run forever (R7RS requires a proper list here): termination is not claimed
+                'attrs': '#[verifier::exec_allows_no_decreases_clause]',
+                'ensures': [
+                    # element j of the new vector is the very object in the car of the j-th pair (a pointer to it), not a copy
+                    (['C14'], '''r matches Ok(x) ==> (x matches VCell::Vector(nv) && (forall|j: int| 0 <= j < vlen(nv) ==>
+                        (#[trigger] list_cell(old(vm).heap_spec(), heap_deref(old(vm).heap_spec(), arg(*old(vm), 1)), j as nat) matches VCell::Pair(a, d) && vector_view(*nv)[j] == VCell::Ptr(a))))'''),
+                ],
+                'body_start': 'proof { axiom_into_vec(); if old(vm).stack_spec().sp_spec() > 1 { axiom_cow_cell_ref(&arg(*old(vm), 1)); } }',
+                'loops': {0: '''invariant
+                        vm.heap_spec() == old(vm).heap_spec(),
+                        list == list_cell(old(vm).heap_spec(), heap_deref(old(vm).heap_spec(), arg(*old(vm), 1)), outv@.len() as nat),
+                        forall|j: int| 0 <= j < outv@.len() ==> (#[trigger] list_cell(old(vm).heap_spec(), heap_deref(old(vm).heap_spec(), arg(*old(vm), 1)), j as nat) matches VCell::Pair(a, d) && outv@[j] == VCell::Ptr(a)),'''},
+                'loop_count': 1,
+                'inserts': [{'loop_start': 0, 'text': 'proof { match list { VCell::Pair(a, d) => { axiom_cow_cell_ref(&VCell::Ptr(d)); } _ => {} } }'}],
             },
             '::vector_fill': {
                 'props': T, 'requires': POP_REQ,
